@@ -117,6 +117,11 @@ CHECKS.update({
             "assumptions": ["a panic in a client goroutine kills the test process: every scenario is logged before execution and the driver replays the last one to attribute the crash",
                             "busy loop = more than 400 requests or more than 80% CPU of the process during a 1.5 s run that did not end by itself",
                             "mutations are applied to streams built by the harness; truncation points include every box boundary of the first three nesting levels"]},
+    "C08": {"steps": [REPLAYS, rapid("stress", "TestC08", 96, 2400, qshards=8, tshards=14, race=True, race_reports=True, schedule_dependent=True, replay_tries=3, shrinktime="30s", timeout={"quick": 900, "thorough": 3000})],
+            "replay_race": True,
+            "assumptions": E1_ASSUME + ["schedules are the operating system's: VERIF_SEED fixes the plans, not the interleavings; the race detector only reports access pairs that were executed",
+                                        "a race report is a violation by itself; the report text is saved as the replay artefact next to the plan that produced it",
+                                        "single-response invariants are those of C03-C05 that need no reference model"]},
     "C16": e1("TestC16", 1000, 30000),
     "C18": e1("TestC18", 400, 8000),
     "C19": e1("TestC19", 800, 30000),
